@@ -1,9 +1,25 @@
 #!/bin/bash
-# tools/seedall.sh [tier]: re-runs every archived seeded change against the properties it is recorded to break
+# tools/seedall.sh [tier] [jobs]: re-runs every archived seeded change against the checks recorded for it (the properties it
+# breaks plus every check named in its "checks_run" note) and lists the seeds that no check reports any more.
 cd "$(dirname "$0")/.."
-tier="${1:-quick}"
-for d in seeded/*/; do
-  props=$(python3 -c "import json;print(' '.join(json.load(open('$d/meta.json'))['breaks_properties']))")
-  echo "=== $(basename $d) [$props]"
-  tools/seedcheck.sh "$PWD/$d" "$tier" $props | grep -E " rc=|demo:|tests" | cut -c1-160
-done
+tier="${1:-quick}"; jobs="${2:-4}"
+out="$(mktemp -d /tmp/vmon-seedall.XXXXXX)"
+one() {
+  d="$1"; tier="$2"; out="$3"
+  props=$(python3 -c "
+import json,re
+m=json.load(open('$d/meta.json'))
+p=list(m['breaks_properties'])+re.findall(r'C[0-9][0-9]', m.get('checks_run',''))
+seen=[]
+[seen.append(x) for x in p if x not in seen]
+print(' '.join(seen))")
+  r="$(tools/seedcheck.sh "$PWD/$d" "$tier" $props | grep -E " rc=|demo:|tests" | cut -c1-160)"
+  name="$(basename $d)"
+  { echo "=== $name [$props]"; echo "$r"; } > "$out/$name.txt"
+  if echo "$r" | grep -q " rc=1 "; then echo "caught $name"; else echo "NOT-CAUGHT $name"; fi
+}
+export -f one
+ls -d seeded/*/ | xargs -P "$jobs" -I{} bash -c "one {} $tier $out"
+cat "$out"/*.txt > seeded/LAST_REGRESSION.txt
+rm -rf "$out"
+echo "details: seeded/LAST_REGRESSION.txt"
